@@ -26,7 +26,7 @@ func (b *CookieBinding) Bind(req *fasthttp.Request, out any) error {
 		}
 
 		k := utils.UnsafeString(key)
-		v := utils.UnsafeString(val)
+		v := string(val) // bound values outlive the request buffers
 		err = formatBindData(out, data, k, v, b.EnableSplitting, false)
 	})
 
